@@ -141,6 +141,8 @@ def tlc(module, cfg, *, workers=None, timeout=900, simulate=None, depth=None, se
         r.violated = m.group(1)
     elif re.search(r"Error: Action property (\S+) is violated", p.stdout):
         r.violated = re.search(r"Error: Action property (\S+) is violated", p.stdout).group(1)
+    elif re.search(r"Error: Temporal property (\S+) was violated", p.stdout):
+        r.violated = re.search(r"Error: Temporal property (\S+) was violated", p.stdout).group(1)
     elif "Temporal properties were violated" in p.stdout:
         r.violated = "temporal"
     elif "Error: Deadlock reached" in p.stdout:
